@@ -312,3 +312,14 @@ Proof.
   assert (B := QA t w Hw A). split; [exact B|].
   destruct (active_not_init cfg s t w K Hw (seqpc_active _ A)) as (N1 & N2). rewrite <- (QP N1 N2). exact B.
 Qed.
+
+(* transition form (any state): one step of any thread leaves the LDM flag of the context alone unless it is a step of the application
+   thread that ends at the ZSTDMT_setBufferSize section of ZSTDMT_initCStream_internal (where, by mt_release_only_when_idle, no pool thread
+   holds a job and the queue is empty): the flag a job reads (serial section, ZSTDMT_getSeq test, round-buffer wait) is constant during the job *)
+Theorem ldm_flag_changes_only_at_init cfg t w s s' :
+  step cfg t w s = Some s' -> ldm (mt s') = ldm (mt s) \/ (t = 0%nat /\ c_pc (cl s') = CInitBuf).
+Proof.
+  destruct t as [|t]; cbn [step]; intros H.
+  - destruct (caller_step_q cfg w s s' H) as ([L|L] & _); [left; exact L|right; split; [reflexivity|exact L]].
+  - left. destruct (worker_step_aux cfg t s s' H) as (Em & _). rewrite Em. reflexivity.
+Qed.
